@@ -189,6 +189,60 @@ theorem model_meets_spec (ops : List Op) (hwf : WF ops) :
   rw [trace_ok inv_init (rel_init _) ops hwf (universe_bound ops) 0]
   rfl
 
+/-! ### retractions and insertions made by rule actions during `fire_all`; `reset_with_deffacts` -/
+
+/-- **A rule action is the operation it stands for.**  Whatever a fired rule's action returns, `process_action_results`
+leaves the engine in the state of the corresponding operation of a history (or, for results that touch no fact, as it was). -/
+theorem action_is_op (e : Engine) (a : Action) :
+    e.processAction a = match a.asOp with
+      | some op => (step e op).1
+      | none => e := by
+  cases a with
+  | retract h => simp [Engine.processAction, Action.asOp, step_fst_retract]
+  | retractByType o => cases o <;> simp [Engine.processAction, Action.asOp, step_fst_retract]
+  | insertFact => simp [Engine.processAction, Action.asOp, step]
+  | insertLogical ps => simp [Engine.processAction, Action.asOp, step]
+  | other => rfl
+
+/-- …so a history continued by any sequence of action results (any number of firings) ends in the state of the plain history
+with those operations appended: every theorem above speaks about retractions and insertions made by rule actions too. -/
+theorem actions_are_history (ops : List Op) (acts : List Action) :
+    acts.foldl Engine.processAction (run ops) = run (ops ++ acts.filterMap Action.asOp) := by
+  induction acts generalizing ops with
+  | nil => simp
+  | cons a acts ih =>
+    rw [List.foldl_cons, action_is_op]
+    cases h : a.asOp with
+    | none => simp only [List.filterMap_cons, h]; exact ih ops
+    | some op =>
+      simp only [List.filterMap_cons, h]
+      have := ih (ops ++ [op])
+      rw [show run (ops ++ [op]) = (step (run ops) op).1 from runFrom_append init ops op] at this
+      rw [this, List.append_assoc]; rfl
+
+/-- **A retraction made by a rule action removes, in that same call, every fact it leaves without support and nothing else**
+(`cascade_exact` for `ActionResult::Retract` — what GRL `retract($X)` produces — after any well-formed history). -/
+theorem action_retract_exact (ops : List Op) (hwf : WF ops) (h : Nat) (hp : (run ops).present h = true) :
+    ∃ c : List Nat, (∀ x, ((run ops).processAction (.retract h)).present x = true ↔ (run ops).present x = true ∧ x ≠ h ∧ x ∉ c) ∧
+      (∀ g ∈ c, (run ops).present g = true ∧ ¬ ((run ops).processAction (.retract h)).HasExplicit g ∧
+        ¬ ((run ops).processAction (.retract h)).SupportedNow g) ∧
+      (∀ f, ((run ops).processAction (.retract h)).present f = true → ((run ops).processAction (.retract h)).Justified f →
+        ((run ops).processAction (.retract h)).HasExplicit f ∨ ((run ops).processAction (.retract h)).SupportedNow f) := by
+  obtain ⟨c, -, h1, -, -, h2, h3, h4, -⟩ := cascade_exact ops hwf h hp
+  exact ⟨c, h1, fun g hg => ⟨h2 g hg, h3 g hg⟩, h4⟩
+
+/-- **`reset_with_deffacts` starts a new history**: whatever happened before, the operations after it run as in a fresh engine
+that loaded the `k` deffacts facts — the history the theorems (and the driver, per segment) speak about. -/
+theorem reset_starts_new_history (e : Engine) (k : Nat) (ops : List Op) :
+    runFrom (e.resetWithDeffacts k) ops = run (List.replicate k .insert ++ ops) := by
+  simp [Engine.resetWithDeffacts, run, runFrom, List.foldl_append]
+
+-- the seeded demo: a rule action retracts the premise of a chain 1 → 2 → 3; both dependents go in the same call
+example : ((run [.insert, .insertLogical [1], .insertLogical [2]]).processAction (.retract 1)).wmRetracted = [3, 2, 1] := by
+  simp [Engine.processAction, run, runFrom, step, init, Engine.insertExplicit, Engine.insertLogical, Engine.retract,
+    Engine.present, Tms.addExplicit, Tms.addLogical, Tms.retractWithCascade, insertSet, removeAll, dependents, loop, hasValid,
+    Just.valid, wmApply]
+
 /-! ### Non-vacuity: concrete histories meeting the hypotheses (evaluated by `simp`, since the
 cascade is defined by well-founded recursion), and the witnesses showing that the domain
 hypothesis `WF` cannot be dropped. -/
